@@ -1291,6 +1291,10 @@ impl ASN1Value {
                         integer_type: i.int_type(),
                         value,
                     };
+                } else if let Some(ToplevelDefinition::Value(tld)) = tlds.get(identifier) {
+                    // not a named number of this type: a reference to a value assignment
+                    *self = tld.value.clone();
+                    self.link_with_type(tlds, ty, type_name)?;
                 }
                 Ok(())
             }
